@@ -217,6 +217,8 @@ func c07r6(c *core.Ctx) {
 	// (0) a short frame ends the message unconditionally (shared with C06-R3): a reader that goes on because "more bytes are
 	// buffered" holds a complete message back until the next one has arrived completely — and loses it if a time-out comes first
 	lastFramePolarity(c, dec, 1024)
+	// (0') plain text or decryption is chosen when the data is there, not before the read blocks
+	modeDecidedAfterData(c)
 	// (a) one decrypt per read: the Decrypt call is not inside a loop of DecryptedRead; its error is never swallowed
 	for _, s := range core.FindCalls(dr, func(i ssa.Instruction) bool { return core.IsInvoke(i, mod+"/crypto.Decrypter", "Decrypt") }) {
 		c.Check(!reachesAfter(s, s), "decrypt-once-per-read@"+fname(dr), posOf(s), "Decrypt is called at most once per Read (no loop)",
@@ -1160,6 +1162,7 @@ func c03r5(c *core.Ctx) {
 
 func c04r7(c *core.Ctx) {
 	c02r2(c)
+	wrongProofAnsweredInBand(c)
 	c05r1(c)
 	sessionAccessors(c, "handlers")
 	contextAccessors(c)
@@ -1176,6 +1179,90 @@ func c04r7(c *core.Ctx) {
 	}
 }
 
+// wrongProofAnsweredInBand: a controller whose SRP proof does not verify (the wrong setup code) is answered with the M4 message
+// carrying kTLVError_Authentication, not with a Go error — the endpoint turns a Go error into HTTP 500 with an empty body, which a
+// controller cannot tell from a broken accessory (C04: "with a wrong setup code the same controller is answered with an
+// authentication error"). The session reports a wrong proof through its error result, so the error edge of ProofFromClientProof is
+// the wrong-code path.
+func wrongProofAnsweredInBand(c *core.Ctx) {
+	m := buildStepModel(c.P, "hap/pair", "SetupServerController", tSetupCtrl)
+	if m == nil {
+		c.Undecided("SetupServerController.Handle", token.NoPos, "not found")
+		return
+	}
+	isProof := func(i ssa.Instruction) bool { return core.IsCall(i, "(*"+tSetupSess+").ProofFromClientProof") }
+	// armed only if the session does report a rejected proof through its error (otherwise its error is an internal failure, and a
+	// Go error is a fair answer to that)
+	viaErr := false
+	if w := c.P.Func("hap/pair", "(*SetupServerSession).ProofFromClientProof"); w != nil {
+		rejected := core.FalseFact(func(v ssa.Value) bool {
+			call, ok := v.(*ssa.Call)
+			return ok && call.Call.StaticCallee() != nil && cn(call.Call.StaticCallee()) == "VerifyClientAuthenticator"
+		})
+		core.EnumPaths(w, 2, 5000, func(pa core.Path) {
+			if ret := pa.Returns(); ret != nil && pathEstablishes(pa, rejected) {
+				if rs := res(ret); len(rs) == 2 && !core.IsNilConst(pa.ResolveAt(len(pa)-1, rs[1])) {
+					viaErr = true
+				}
+			}
+		})
+	}
+	if !viaErr {
+		c.OK("wrong-proof-answered-in-band", token.NoPos, "not armed: the session does not report a rejected proof through its error result")
+		return
+	}
+	n := 0
+	for _, h := range m.handlers {
+		sites := core.FindCalls(h, isProof)
+		if len(sites) == 0 {
+			continue
+		}
+		isErr := func(v ssa.Value) bool { return core.CallResult(v, 1, isProof) != nil }
+		paths, bad := 0, 0
+		var witness core.Path
+		core.EnumPaths(h, 2, 20000, func(pa core.Path) {
+			if !pathTakesNonNilEdge(pa, isErr) {
+				return
+			}
+			ret := pa.Returns()
+			if ret == nil {
+				return
+			}
+			paths++
+			rs := res(ret)
+			ok := len(rs) == 2 && core.IsNilConst(pa.ResolveAt(len(pa)-1, rs[1]))
+			if ok {
+				ok = false
+				facts := containerFactsOnPath(pa, tSetupCtrl)
+				for _, src := range core.Sources(pa.ResolveAt(len(pa)-1, rs[0])) {
+					if tv, set := facts[src][specTags["TagErrCode"]]; set && tv.known && tv.val == 2 {
+						ok = true
+					}
+				}
+			}
+			if !ok {
+				bad++
+				if witness == nil {
+					witness = pa
+				}
+			}
+		})
+		n++
+		key := "wrong-proof-answered-in-band@" + fname(h)
+		switch {
+		case paths == 0:
+			c.Undecided(key, posOf(sites[0]), "no path tests the error of ProofFromClientProof")
+		case bad == 0:
+			c.OK(key, posOf(sites[0]), "on all %d paths with a rejected proof the handler returns the response with error code 2 and a nil error", paths)
+		default:
+			c.BadPath(key, posOf(sites[0]), witness.Describe(c.P), "a rejected SRP proof (the wrong setup code) is not answered with the response carrying kTLVError_Authentication: the handler returns a Go error, the endpoint answers HTTP 500 with an empty body, and the controller cannot tell a wrong code from a broken accessory")
+		}
+	}
+	if n == 0 {
+		c.Undecided("wrong-proof-answered-in-band", token.NoPos, "no step handler calls ProofFromClientProof")
+	}
+}
+
 func c05r6(c *core.Ctx) {
 	wrappersPure(c, [][2]string{{"crypto/hkdf", "Sha512"}, {"crypto/chacha20poly1305", "DecryptAndVerify"}, {"crypto/chacha20poly1305", "EncryptAndSeal"}})
 	// the session key is derived from the ephemeral keys of this connection: with a process-wide accessory key pair a replayed
@@ -1189,7 +1276,48 @@ func c05r6(c *core.Ctx) {
 
 func c11r6(c *core.Ctx) {
 	getValueRevealsOnlyStored(c)
+	eventCarriesStoredValue(c)
 	c10r4(c)
+}
+
+// eventCarriesStoredValue: the value announced in an event is a load of Characteristic.Value. The stored field is what the read gate
+// protects (updateValue stores only when the characteristic is readable; C11-R2); the values handed to the change callbacks are the
+// raw new and old values, also of a characteristic that may not be read. An event built from a callback argument tells every
+// subscriber what was written to a write-only characteristic.
+func eventCarriesStoredValue(c *core.Ctx) {
+	p := c.P
+	f := p.Func("", "(*ipTransport).notifyListener")
+	if f == nil {
+		c.Undecided("notifyListener", token.NoPos, "not found")
+		return
+	}
+	seen := map[*ssa.Function]bool{}
+	n := 0
+	var walk func(g *ssa.Function)
+	walk = func(g *ssa.Function) {
+		if g == nil || seen[g] || !core.InModule(g) || g.Blocks == nil {
+			return
+		}
+		seen[g] = true
+		core.Instrs(g, func(i ssa.Instruction) {
+			if st, ok := i.(*ssa.Store); ok {
+				if _, isVal := core.FieldAddrOf(st.Addr, mod+"/hap/data.Characteristic", "Value"); isVal {
+					n++
+					stored := core.AllSources(st.Val, func(v ssa.Value) bool {
+						_, ok := core.FieldLoad(v, tChar, "Value")
+						return ok
+					})
+					c.Check(stored, "event-carries-stored-value@"+fname(g), posOf(i), "the announced value is a load of Characteristic.Value",
+						"the value announced in an event is not the stored Characteristic.Value (a callback argument or another copy): the stored field is what the read gate protects — for a characteristic without read permission it stays nil, the callback arguments do not, and every subscriber is told what was written")
+				}
+			}
+			walk(core.Callee(i))
+		})
+	}
+	walk(f)
+	if n == 0 {
+		c.Undecided("event-carries-stored-value", f.Pos(), "no notification body found in the fan-out")
+	}
 }
 
 func c13r6(c *core.Ctx) {
